@@ -36,6 +36,14 @@ def check_obs(env, scn, obs, modes, where):
         lo, hi = float(np.min(sp.low)), float(np.max(sp.high))
         raise Failure("C10:obs-not-in-space", f"{where}: observation not in observation_space "
                       f"(min {obs.min()}, max {obs.max()}, space [{lo}, {hi}], dtype {obs.dtype}/{sp.dtype})")
+    # the caller may do what it likes with the array it was given (normalise it in place, hand it to torch ...):
+    # every later observation must still be a valid one
+    _SCRIBBLE[0] += 1
+    if obs.flags.writeable and _SCRIBBLE[0] % 3 == 0:
+        obs[...] = -12345.0
+
+
+_SCRIBBLE = [0]
 
 
 def check_step_tuple(out, where):
